@@ -689,11 +689,15 @@ type faultWitness struct {
 }
 
 // runFault: errors injected into WAL syscalls. The parent follows the child's
-// returns with a *set* of model states: a call that reported failure either left
-// its batch pending (nothing durable) or committed it as a whole; the running
-// store's view (digest logged after every call) selects among them. Oracle:
-// the view always matches a state; the directory copied at every failed call
-// and the final directory reopen (without faults) to a state of the set.
+// returns with a *set* of model states: a flush/close that reported failure either
+// left its batch buffered with nothing on disk, or committed it as a whole (the
+// error came from the cleanup after the commit), or - if the tail repair failed
+// too - left the whole batch in the log unacknowledged, after which every further
+// write must be refused. The running store's view (digest logged after every call)
+// selects among them. Oracle: the view always matches a state; the directory
+// copied at every failed call and the final directory reopen (without faults) to
+// the disk content of a state of the set - never a partial batch, never a
+// duplicate, never an unreadable log.
 func runFault(r *lib.Run, caseIdx int, sc script, inject []string) {
 	res, err := runChild(sc.Ops, inject, false, true, true)
 	if res != nil {
@@ -731,19 +735,45 @@ func runFault(r *lib.Run, caseIdx int, sc script, inject []string) {
 		r.Violation(class, caseIdx, brief,
 			faultWitness{Profile: sc.Profile, Inject: inject, Call: call, Error: msg, Problem: p, Script: scriptString(sc.Ops, 80)})
 	}
-	states := []*model{{}}
+	// fstate: live = what the running store has committed + buffered; ghost = one
+	// whole batch whose flush reported failure and whose bytes may nevertheless
+	// have stayed in the log because the tail repair failed too (the store must
+	// then refuse every further write, so a ghost is always the last thing on disk).
+	type fstate struct {
+		live  *model
+		ghost []rec
+		has   bool
+	}
+	disk := func(s *fstate) *model {
+		d := s.live.clone()
+		d.dropPending()
+		if s.has {
+			d.pending = append([]rec(nil), s.ghost...)
+			d.commit()
+		}
+		return d
+	}
+	states := []*fstate{{live: &model{}}}
 	storeOpen := false
-	dedup := func(in []*model) []*model {
+	dedup := func(in []*fstate) []*fstate {
 		seen := map[string]bool{}
-		var out []*model
+		var out []*fstate
 		for _, s := range in {
-			k := viewDigest(s.view()) + fmt.Sprint(len(s.pending), s.w)
+			k := viewDigest(s.live.view()) + fmt.Sprint(len(s.live.pending), s.live.w, s.has, len(s.ghost))
 			if !seen[k] {
 				seen[k] = true
 				out = append(out, s)
 			}
 		}
 		return out
+	}
+	diskAlts := func() []alt {
+		var alts []alt
+		for _, s := range states {
+			d := disk(s)
+			alts = append(alts, alt{fmt.Sprintf("state(pending=%d,unacknowledged-batch-on-disk=%v)", len(s.live.pending), s.has), d.view(), d.w})
+		}
+		return alts
 	}
 	failedCalls := 0
 	for _, p := range res.progress {
@@ -758,7 +788,7 @@ func runFault(r *lib.Run, caseIdx int, sc script, inject []string) {
 		}
 		call := fmt.Sprintf("#%d %s", p.I, o)
 		okRet := p.Status == "ok"
-		var next []*model
+		var next []*fstate
 		switch o.Kind {
 		case opSet, opDel:
 			if !okRet {
@@ -766,55 +796,73 @@ func runFault(r *lib.Run, caseIdx int, sc script, inject []string) {
 				return
 			}
 			for _, s := range states {
-				s.apply(o)
+				s.live.apply(o)
 			}
 			next = states
 		case opFlush, opClose:
 			for _, s := range states {
-				if !okRet {
-					next = append(next, s.clone()) // nothing of the batch durable, batch still buffered
+				if s.has {
+					// repair failed earlier: only a refusal is consistent with this state
+					if !okRet || len(s.live.pending) == 0 {
+						next = append(next, s)
+					}
+					continue
 				}
-				c := s.clone()
+				if !okRet {
+					// (A) nothing of the batch on disk, batch still buffered
+					next = append(next, &fstate{live: s.live.clone()})
+					// (C) whole batch left in the log, not acknowledged, still buffered
+					if len(s.live.pending) > 0 {
+						next = append(next, &fstate{live: s.live.clone(), ghost: append([]rec(nil), s.live.pending...), has: true})
+					}
+				}
+				// (B) / success: whole batch committed
+				c := s.live.clone()
 				c.commit()
-				next = append(next, c)
+				next = append(next, &fstate{live: c})
 			}
 			if o.Kind == opClose {
 				storeOpen = false
 				for _, s := range next {
-					s.dropPending()
+					s.live.dropPending()
 				}
 			}
 		case opOpen:
-			next = states
 			storeOpen = okRet
 			if !okRet {
 				r.Count("fault_runs_open_failed_while_faults_armed", 1)
+				next = states
+			} else {
+				for _, s := range states {
+					next = append(next, &fstate{live: disk(s)}) // what is on disk is what the new instance has
+				}
 			}
 		}
 		states = dedup(next)
+		if len(states) == 0 {
+			report("fault:write-accepted-after-failed-tail-repair", call, p.Msg, nil)
+			return
+		}
 		if len(states) > 64 {
 			r.Inconclusive("fault-state-set-too-large")
 			return
 		}
 		// the running store's view selects the states that are still possible
 		if storeOpen && p.View != "-" {
-			var keep []*model
+			var keep []*fstate
 			for _, s := range states {
-				if viewDigest(s.view()) == p.View {
+				if viewDigest(s.live.view()) == p.View {
 					keep = append(keep, s)
 				}
 			}
 			r.Eval(1)
 			if len(keep) == 0 {
-				report("fault:live-view-illegal-after-"+o.Kind+"-"+p.Status, call, p.Msg,
-					&problem{Class: "fault:live-view-illegal-after-" + o.Kind + "-" + p.Status,
-						Brief: fmt.Sprintf("running store shows view %s; legal: %v", p.View, func() []string {
-							var v []string
-							for _, s := range states {
-								v = append(v, viewDigest(s.view()))
-							}
-							return v
-						}())})
+				var legal []string
+				for _, s := range states {
+					legal = append(legal, viewDigest(s.live.view()))
+				}
+				report("", call, p.Msg, &problem{Class: "fault:live-view-illegal-after-" + o.Kind + "-" + p.Status,
+					Brief: fmt.Sprintf("running store shows view %s; legal: %v", p.View, legal)})
 				return
 			}
 			states = keep
@@ -824,13 +872,12 @@ func runFault(r *lib.Run, caseIdx int, sc script, inject []string) {
 			r.Count("failed_calls:"+o.Kind, 1)
 			snap := filepath.Join(res.dir, "snaps", fmt.Sprintf("op%d", p.I))
 			if _, err := os.Stat(snap); err == nil {
-				var alts []alt
-				for _, s := range states {
-					alts = append(alts, alt{fmt.Sprintf("state(pending=%d)", len(s.pending)), s.view(), s.w})
-				}
-				_, pr := checkDir(snap, alts, "fault-snapshot", "")
+				which, pr := checkDir(snap, diskAlts(), "fault-snapshot", "")
 				r.Eval(1)
 				r.Count("fault_snapshots_checked", 1)
+				if which >= 0 && states[which].has {
+					r.Count("fault_snapshots_showing_unacknowledged_whole_batch(repair failed)", 1)
+				}
 				if pr != nil {
 					im, _ := readImage(walDirOf(snap))
 					pr.Files = im.describe()
@@ -844,18 +891,14 @@ func runFault(r *lib.Run, caseIdx int, sc script, inject []string) {
 		r.Count("fault_runs_child_died", 1)
 	}
 	for _, s := range states {
-		s.dropPending()
+		s.live.dropPending()
 	}
 	states = dedup(states)
-	var alts []alt
-	for i, s := range states {
-		alts = append(alts, alt{fmt.Sprintf("state%d", i), s.view(), s.w})
-	}
-	_, pr := checkDir(res.base, alts, "fault-final", "")
+	_, pr := checkDir(res.base, diskAlts(), "fault-final", "")
 	r.Eval(1)
 	r.Count("fault_runs_checked", 1)
 	if failedCalls > 0 {
-		r.Case(fmt.Sprintf("fault:%s:%v:failed%d:final%s", sc.Profile, inject, failedCalls, viewDigest(states[0].view())))
+		r.Case(fmt.Sprintf("fault:%s:%v:failed%d:final%s", sc.Profile, inject, failedCalls, viewDigest(states[0].live.view())))
 	}
 	if pr != nil {
 		im, _ := readImage(walDirOf(res.base))
